@@ -69,6 +69,11 @@ class Expr:
         return Expr(lit(c), lambda env, c=c: c, islit=True)
 
     def _bin(self, o, op, f, swap=False):
+        if isinstance(o, np.ndarray):   # scalar (op) array: elementwise, as numpy would broadcast
+            flat = [self._bin(e, op, f, swap) for e in o.ravel()]
+            out = np.empty(len(flat), dtype=object)
+            out[:] = flat
+            return out.reshape(o.shape)
         o = Expr.of(o)
         a, b = (o, self) if swap else (self, o)
         return Expr(f"({a.s} {op} {b.s})", lambda env, a=a, b=b: f(a.v(env), b.v(env)))
@@ -86,6 +91,8 @@ class Expr:
     def __pow__(self, o):
         if isinstance(o, (int, np.integer)) and int(o) == 2:
             return Expr(f"({self.s} * {self.s})", lambda env, a=self: a.v(env) * a.v(env))
+        if isinstance(o, (int, np.integer)) and int(o) == 3:
+            return Expr(f"(({self.s} * {self.s}) * {self.s})", lambda env, a=self: a.v(env) ** 3)
         o = Expr.of(o)
         return Expr(f"(Rpow {self.s} {o.s})", lambda env, a=self, b=o: a.v(env) ** b.v(env))
 
@@ -122,6 +129,13 @@ def sexp(x):
     return np.exp(x)
 
 
+class _NanResult:
+    """`np.full(shape, np.nan)`: the callable returns an all-NaN array (modelled as `none`)"""
+
+
+NAN_RESULT = _NanResult()
+
+
 class NpShim:
     """stands in for the module-global `np` of the traced module"""
 
@@ -144,6 +158,25 @@ class NpShim:
 
     def exp(self, x):
         return sexp(x)
+
+    def cos(self, x):
+        return Expr(f"(Rcos {x.s})", lambda env, a=x: math.cos(a.v(env))) if isinstance(x, Expr) else self._real.cos(x)
+
+    def sin(self, x):
+        return Expr(f"(Rsin {x.s})", lambda env, a=x: math.sin(a.v(env))) if isinstance(x, Expr) else self._real.sin(x)
+
+    def arctan2(self, y, x):
+        y, x = Expr.of(y), Expr.of(x)
+        return Expr(f"(Ratan2 {y.s} {x.s})", lambda env, a=y, b=x: math.atan2(a.v(env), b.v(env)))
+
+    @property
+    def pi(self):
+        return Expr("Rpi", lambda env: math.pi)
+
+    def full(self, shape, val, *a, **k):
+        if isinstance(val, float) and math.isnan(val):
+            return NAN_RESULT
+        return self._real.full(shape, val, *a, **k)
 
 
 def sym_matrix(name):
@@ -174,7 +207,12 @@ def explore(fn):
     while stack:
         prefix = stack.pop()
         _ORACLE = Oracle(prefix)
-        val = fn()
+        try:
+            val = fn()
+        except TypeError:
+            raise
+        except Exception as e:  # noqa: BLE001  (the traced function raised on this path)
+            val = ("raise", type(e).__name__)
         taken, conds = _ORACLE.taken, _ORACLE.conds
         paths.append((taken, conds, val))
         for i in range(len(prefix), len(taken)):
@@ -317,3 +355,97 @@ if __name__ == "__main__":
     t = trace_core()
     txt = emit_lean(t)
     print(len(txt), "bytes;", "selfcheck mismatches:", selfcheck(t))
+
+
+# ------------------------------------------------------------------ velocity.py (flows)
+AXES = [(0, 1), (0, 2), (1, 0), (1, 2), (2, 0), (2, 1)]
+
+
+def _is_none_leaf(v):
+    return v is NAN_RESULT or (isinstance(v, tuple) and len(v) == 2 and v[0] == "raise")
+
+
+def opt_tree_lean(tree, kind):
+    if tree[0] == "leaf":
+        v = tree[1]
+        if _is_none_leaf(v):
+            return "none"
+        if kind == "vec3":
+            body = " ".join(f"| {i} => {Expr.of(v[i]).s}" for i in range(3))
+            return f"(some (fun i => match i with {body}))"
+        body = " ".join(f"| {i}, {j} => {Expr.of(v[i, j]).s}" for i in range(3) for j in range(3))
+        return f"(some (fun i j => match i, j with {body}))"
+    return f"(if {tree[1].s} then {opt_tree_lean(tree[2], kind)} else {opt_tree_lean(tree[3], kind)})"
+
+
+def opt_tree_eval(tree, kind, env):
+    while tree[0] == "if":
+        tree = tree[2] if tree[1].v(env) else tree[3]
+    v = tree[1]
+    if _is_none_leaf(v):
+        return None
+    return np.array([[Expr.of(v[i, j]).v(env) for j in range(3)] for i in range(3)]) if kind == "mat3" else np.array([Expr.of(v[i]).v(env) for i in range(3)])
+
+
+def trace_velocity():
+    from pydrex import velocity as V
+
+    real_np = V.np
+    V.np = NpShim(real_np)
+    out = {}
+    try:
+        x = sym_vector("x", 3)
+        U, d, sr = sym_scalar("U"), sym_scalar("d"), sym_scalar("sr")
+        for (a, b) in AXES:
+            tag = f"{a}{b}"
+            out[f"traced_simpleShearVel_{tag}"] = ("(sr : ℝ) (x : Vec3)", "vec3", explore(lambda: V._simple_shear_2d(0.0, x, a, b, sr)))
+            out[f"traced_simpleShearGrad_{tag}"] = ("(sr : ℝ) (x : Vec3)", "mat3", explore(lambda: V._simple_shear_2d_grad(0.0, x, a, b, sr)))
+            out[f"traced_cellVel_{tag}"] = ("(U d : ℝ) (x : Vec3)", "vec3", explore(lambda: V._cell_2d(0.0, x, a, b, U, d)))
+            out[f"traced_cellGrad_{tag}"] = ("(U d : ℝ) (x : Vec3)", "mat3", explore(lambda: V._cell_2d_grad(0.0, x, a, b, U, d)))
+            out[f"traced_cornerVel_{tag}"] = ("(U : ℝ) (x : Vec3)", "vec3", explore(lambda: V._corner_2d(0.0, x, a, b, U)))
+            out[f"traced_cornerGrad_{tag}"] = ("(U : ℝ) (x : Vec3)", "mat3", explore(lambda: V._corner_2d_grad(0.0, x, a, b, U)))
+    finally:
+        V.np = real_np
+    return out
+
+
+def emit_velocity(traced, path=None):
+    lines = ["-- GENERATED on every run by harness/trace/tracer.py from /repo/src/pydrex/velocity.py -- do not edit",
+             "import ModelR.Flow", "noncomputable section", "namespace ModelR", ""]
+    for name, (params, kind, tree) in traced.items():
+        ty = "Vec3" if kind == "vec3" else "Mat3"
+        lines.append(f"def {name} {params} : Option {ty} :=\n  {opt_tree_lean(tree, kind)}\n")
+    lines += ["end ModelR", ""]
+    text = "\n".join(lines)
+    path = path or (GEN / "TracedFlow.lean")
+    if not path.exists() or path.read_text() != text:
+        path.write_text(text)
+    return text
+
+
+def selfcheck_velocity(traced, n=30, seed=0):
+    from pydrex import velocity as V
+
+    rng = np.random.default_rng(seed)
+    bad = []
+    fns = {"simpleShearVel": (V._simple_shear_2d, ("sr",)), "simpleShearGrad": (V._simple_shear_2d_grad, ("sr",)),
+           "cellVel": (V._cell_2d, ("U", "d")), "cellGrad": (V._cell_2d_grad, ("U", "d")),
+           "cornerVel": (V._corner_2d, ("U",)), "cornerGrad": (V._corner_2d_grad, ("U",))}
+    for _ in range(n):
+        env = {"x": rng.uniform(-1.2, 1.2, size=3), "U": float(rng.normal()), "d": float(rng.uniform(1.5, 3)), "sr": float(rng.normal())}
+        if rng.random() < 0.2:
+            env["x"] = np.zeros(3)
+        for name, (params, kind, tree) in traced.items():
+            base, tag = name[len("traced_"):].rsplit("_", 1)
+            a, b = int(tag[0]), int(tag[1])
+            fn, ps = fns[base]
+            try:
+                want = np.asarray(fn(0.0, env["x"], a, b, *[env[p] for p in ps]), float)
+                if np.isnan(want).all():
+                    want = None
+            except ValueError:
+                want = None
+            got = opt_tree_eval(tree, kind, env)
+            if (want is None) != (got is None) or (want is not None and not np.allclose(got, want, rtol=1e-12, atol=1e-300)):
+                bad.append(name)
+    return sorted(set(bad))
